@@ -19,6 +19,7 @@ import (
 	"sort"
 	"strings"
 	"sync"
+	"sync/atomic"
 	"time"
 
 	"google.golang.org/protobuf/encoding/protojson"
@@ -41,6 +42,7 @@ type ClientOpts struct {
 	ContentType    string
 	DefaultHeaders [][2]string
 	Helpers        [][2]string
+	Shared         string // non-empty: one client instance per (service, Shared) is reused by all calls
 }
 type CallOpts struct {
 	ContentType string
@@ -99,6 +101,7 @@ type Op struct {
 	// scheduling
 	Group int `json:"group"` // ops with the same non-zero group run concurrently
 	Par   int `json:"par"`
+	Fresh bool `json:"fresh"` // serve this op by a newly registered server (reference runs)
 }
 
 // Canned is a fixed HTTP response for client-robustness ops.
@@ -120,11 +123,14 @@ type opState struct {
 	seq int
 }
 
+// gseq orders the events of concurrently running ops (taken under the op's lock at emission).
+var gseq atomic.Int64
+
 func (s *opState) emit(ev string, kv ...any) {
 	s.mu.Lock()
 	defer s.mu.Unlock()
 	s.seq++
-	e := Event{"event": ev, "case": s.op.Case, "call": s.op.Call, "seq": s.seq}
+	e := Event{"event": ev, "case": s.op.Case, "call": s.op.Call, "seq": s.seq, "gseq": gseq.Add(1)}
 	for i := 0; i+1 < len(kv); i += 2 {
 		e[kv[i].(string)] = kv[i+1]
 	}
@@ -305,11 +311,12 @@ var (
 	muxes = map[string]*http.ServeMux{}
 )
 
-func muxFor(pkg string, hooked bool, mock bool) (*http.ServeMux, error) {
+func muxFor(pkg string, hooked bool, mock bool, fresh ...bool) (*http.ServeMux, error) {
 	key := fmt.Sprintf("%s|%v|%v", pkg, hooked, mock)
+	isFresh := len(fresh) > 0 && fresh[0]
 	muxMu.Lock()
 	defer muxMu.Unlock()
-	if m, ok := muxes[key]; ok {
+	if m, ok := muxes[key]; ok && !isFresh {
 		return m, nil
 	}
 	p := pkgs[pkg]
@@ -336,7 +343,9 @@ func muxFor(pkg string, hooked bool, mock bool) (*http.ServeMux, error) {
 			return nil, err
 		}
 	}
-	muxes[key] = mux
+	if !isFresh {
+		muxes[key] = mux
+	}
 	return mux, nil
 }
 
@@ -382,7 +391,7 @@ func emitResp(st *opState, rw *recWriter, panicked string, timedOut bool) {
 
 func runRaw(st *opState) {
 	op := st.op
-	mux, err := muxFor(op.Pkg, op.Hook != "" && op.Hook != "none", op.Op == "mockraw")
+	mux, err := muxFor(op.Pkg, op.Hook != "" && op.Hook != "none", op.Op == "mockraw", op.Fresh)
 	if err != nil {
 		st.emit("DriverError", "detail", err.Error())
 		return
@@ -484,7 +493,7 @@ func runCall(st *opState) {
 			sp = op.Pkg
 		}
 		var err error
-		mux, err = muxFor(sp, op.Hook != "" && op.Hook != "none", false)
+		mux, err = muxFor(sp, op.Hook != "" && op.Hook != "none", false, op.Fresh)
 		if err != nil {
 			st.emit("DriverError", "detail", err.Error())
 			return
